@@ -2542,15 +2542,15 @@ pub fn run(ctx: &Ctx) {
         run_list(ctx, "goldens", goldens, |g: &GoldenCase, case| golden_oracle(ctx, g, case));
     }
     if want("roundtrip") {
-        let n = ctx.tier.pick(20_000u64, 3_000_000u64);
+        let n = ctx.tier.pick(150_000u64, 3_000_000u64);
         run_generated(ctx, "roundtrip", n, tree_strategy, |t: &TreeCase, case| roundtrip_oracle(ctx, t, case));
     }
     if want("format_idempotent") {
-        let n = ctx.tier.pick(10_000u64, 1_000_000u64);
+        let n = ctx.tier.pick(60_000u64, 1_000_000u64);
         run_generated(ctx, "format_idempotent", n, styled_strategy, |c: &StyledCase, case| format_oracle(ctx, c, case));
     }
     if want("parser_total") {
-        let n = ctx.tier.pick(50_000u64, 5_000_000u64);
+        let n = ctx.tier.pick(300_000u64, 5_000_000u64);
         run_generated(ctx, "parser_total", n, text_strategy, |t: &TextCase, case| text_oracle(ctx, t, case, None));
     }
 }
